@@ -102,6 +102,17 @@ mut("c04-cannot-unwrap-nonempty", "C04", "C04.R3", (UB, "_ => (el.start_token.by
 mut("c04-empty-filter-dropped", "C04", "C04.R1", (RM, "if !range.is_empty() {", "if true {"))
 mut("c04-clean-formats-stale-positions", "C04", "C04.R2", (CH, "let removed_pos = remover::get_removed_pos(&markers);", "let removed_pos = remover::get_removed_pos(&remover.build_remove_marker_all(&[]).into_iter().map(|v| v.0).collect::<Vec<_>>());\n    let _ = &markers;"))
 
+# ---------------------------------------------------------------- C17
+mut("c17-while-back-to-if", "C17", "C17.R2",
+    (RM, "            while range_cursor < ranges_pending.len() {\n                let (pending_range, pending_idx) = &ranges_pending[range_cursor];\n\n                if pending_range.start >= range.end {\n                    break;\n                }\n",
+     "            if range_cursor < ranges_pending.len() {\n                let (pending_range, pending_idx) = &ranges_pending[range_cursor];\n\n                if pending_range.start >= range.end {\n                    merged_ranges.push(((range.clone(), idx), true));\n                    continue;\n                }\n"))
+mut("c17-pending-ignores-skip", "C17", "C17.R1",
+    (RM, "let range = if is_skip(&el.start_element) {", "let range = if is_skip(&el.start_element) && !collect_pending_removals {"))
+mut("c17-pending-tail-dropped", "C17", "C17.R2", (RM, "        if range_cursor < ranges_pending.len() {\n            merged_ranges.extend(", "        if range_cursor > ranges_pending.len() {\n            merged_ranges.extend("))
+mut("c17-ready-push-conditional", "C17", "C17.R2", (RM, "            merged_ranges.push(((range.clone(), idx), true));\n        }\n\n        if range_cursor", "            if range_cursor > 0 || ranges_pending.is_empty() {\n                merged_ranges.push(((range.clone(), idx), true));\n            }\n        }\n\n        if range_cursor"))
+mut("c17-pending-when-not-collecting", "C17", "C17.R1", (RM, "if collect_pending_removals {\n                                        create(el", "if collect_pending_removals || true {\n                                        create(el"))
+mut("c17-ready-depends-on-flag", "C17", "C17.R1", (RM, "true => create(el, &self.remove_strategies).map(|f| (f, true)),", "true => create(el, &self.remove_strategies).map(|f| (f, !collect_pending_removals)),"))
+
 # ---------------------------------------------------------------- benign variants (every rule silent)
 benign("b-c05-single-expression", (TL, "if self.current_time < expires.unwrap() {\n            return false;\n        }\n\n        true", "self.current_time >= expires.unwrap()"))
 benign("b-c05-format-shorthand", (TL, 'parse_from_str(&expires_str, "%Y-%m-%d %H:%M:%S %z")', 'parse_from_str(&expires_str, "%F %T %z")'))
